@@ -88,7 +88,7 @@ Theorem C07fn_avg_float :
 Proof. exact avgf_all. Qed.
 Print Assumptions C07fn_avg_float.
 
-(* AVG over Decimal(p, scale) (native i128 accumulator), ANY scale: a plan that succeeds returns the exact
+(* AVG over Decimal(p, scale) (checked i128 accumulator since 2f7b0a8b9), ANY scale: a plan that succeeds returns the exact
    average of the decimal VALUES (u / 10^scale, resp. u * 10^(-scale) for a negative scale) *)
 Theorem C07fn_avg_decimal_never_wrong : forall scale,
   never_wrong (avg_dec scale) (spec_avg_dec scale) fres_eq /\ state_determined (avg_dec scale).
@@ -103,18 +103,24 @@ Theorem C07fn_avg_decimal_negative_scale :
 Proof. exact avg_dec_negative_scale. Qed.
 Print Assumptions C07fn_avg_decimal_negative_scale.
 
+(* exact or "Avg overflowed", nothing else (no panic) *)
+Theorem C07fn_avg_decimal_outcome_class : forall scale t,
+  (exists s, run_tree (avg_dec scale) t = Ok s) \/ run_tree (avg_dec scale) t = Err.
+Proof. exact avg_dec_outcome_class. Qed.
+Print Assumptions C07fn_avg_decimal_outcome_class.
+
 Theorem C07fn_avg_decimal_total_when_bounded : forall scale t xs,
   Permutation (nn (flatten t)) (nn xs) -> (abs_sum (nn xs) < 2 ^ 127)%Z ->
   run_tree (avg_dec scale) t = run_chunk (avg_dec scale) xs /\ exists s, run_tree (avg_dec scale) t = Ok s.
 Proof. exact avg_dec_total_when_bounded. Qed.
 Print Assumptions C07fn_avg_decimal_total_when_bounded.
 
-(* the sequential run over three Decimal128(38,0) values with a representable average panics (dev
-   profile; a release build wraps and returns a wrong value), another plan succeeds
-   (finding avg-dec-i128-overflow) *)
+(* like SUM, full-strength split invariance does not hold for the checked accumulator: the sequential run
+   over three Decimal128(38,0) values with a representable average fails with "Avg overflowed", another plan
+   succeeds (never a wrong value: C07fn_avg_decimal_never_wrong) *)
 Theorem C07fn_avg_decimal_split_invariant_refuted :
   exists t xs, Permutation (nn (flatten t)) (nn xs) /\
-    result_tree (avg_dec 0) t = Ok (FRat (inject_Z ((10 ^ 38 - 1) / 3))) /\ run_chunk (avg_dec 0) xs = Panic.
+    result_tree (avg_dec 0) t = Ok (FRat (inject_Z ((10 ^ 38 - 1) / 3))) /\ run_chunk (avg_dec 0) xs = Err.
 Proof. exact avgd_split_invariant_refuted. Qed.
 Print Assumptions C07fn_avg_decimal_split_invariant_refuted.
 
